@@ -73,7 +73,7 @@ func Dial(network, addr string) (net.Conn, error) {
 //go:norace
 func (c *SimConn) Read(b []byte) (int, error) {
 	RaceOff()
-	g := cur("netread")
+	g := cur("netread", false)
 	for {
 		mu.Lock()
 		if dying {
